@@ -469,6 +469,21 @@ def check_fuzz(case, ctx):
 FUZZ_CORPUS = [b"\x00\x02\x06\x06\x0c\x02\x03", b"m/44'/0'/0'/0/0", bytes([0x80, 2, 3, 12, 2, 4, 13])]
 
 
+# ------------------------------------------------------------------------------------ first use from several threads
+def _cold_build(it):
+    L, marks, root, seed = it
+    L = list(L)
+    s_ = render(L, list(marks), root)
+    if seed is None:
+        return (["wallet_utils", "Bip32Path.parse", [s_], [["to_list", []]]], L, "Bip32Path.parse(%r).to_list()" % s_)
+    try:
+        want = R.derive(R.master(seed), L).xpub(R.XPUB)
+    except R.Invalid:
+        want = None
+    return (["base_wallet", "BaseWallet.from_bip39_seed_hex", [seed.hex()], [["by_path", [render(L, list(marks), "m")]], ["extended_public_key", []]]],
+            want, "from_bip39_seed_hex(..).by_path(%r)" % render(L, list(marks), "m"))
+
+
 def clauses():
     return [
         Clause("parse-format", check_parse,
@@ -528,4 +543,7 @@ def clauses():
                n={"quick": 4000, "thorough": 200000}, shards={"quick": 4, "thorough": 8},
                fuzz={"runs": {"quick": 30000, "thorough": 1500000}, "campaigns": {"quick": 2, "thorough": 8},
                      "max_len": 60, "corpus": FUZZ_CORPUS}),
+        __import__("vlib.cold", fromlist=["x"]).cold_clause(
+            "C17", st.tuples(paths(), MARKS, st.sampled_from(["m", "M"]), st.one_of(st.none(), S.seeds(16, 32))),
+            _cold_build, "path parsing and by_path lookups"),
     ]
